@@ -929,3 +929,109 @@ def gen_txt_fields(rng, N):
                             prefix + " x" + prefix + "y", "GRAPH_" + prefix + body, prefix.lower() + body, ""])
         out.append({"op": "txt_fields", "names": list(names), "text": text, "prefix": prefix, "pline": pline, "_kind": kind})
     return out
+
+
+# ----------------------------------------------------------------------------- TXT file layer
+
+def gen_txt_write(rng, N, nmax=5):
+    """objects of all four kinds whose written text is compared character by character"""
+    out = []
+    for s in gen_rt(rng, N, nmax=nmax):
+        s = dict(s)
+        for k in ("warmup", "warm_single", "faults", "via_apply", "fseed"):
+            s.pop(k, None)
+        if any(("\ud800" <= ch <= "\udfff") for nm in s["names"] for ch in nm):
+            continue
+        s["op"] = "txt_write"
+        out.append(s)
+    return out
+
+
+_HOSTILE_INTS = ["+5", "-0", "007", "1_000", "1__0", "_1", "1_", "", "1.0", "1e3", "0x10", "--1", "+-1", "+", "-", "1 0",
+                 "12a", "- 3", "9" * 40, "-" + "9" * 25, "+0_0", "0_", "−1"]
+_JUNK = ["# comment", "MALFORMED: x, y", "", "   ", "\t", "EDGE:", "VERTICES:", "GRAPH_VERTICES:", "GRAPH_VERTICES: ", "GRAPH_EDGE:",
+         "DEGREE: a", "DEGREE: a, 1, 2", "EDGE: a, b", "EDGE: a, b, c, d", "GRAPH_EDGE: a, b", "ORIENTED: a", "ORIENTED: a, b, c",
+         "FIRING: a", "FIRING: a, 1, 2", "---DEGREES---", "---ORIENTATIONS---", "---SCRIPT---", "--- DEGREES ---", "---degrees---",
+         "VERTICES", "VERTICES :", "vertices: a, b", "EDGE : a, b, 1", "Data: TXT representation not implemented for this type."]
+
+
+def gen_txt_read(rng, N):
+    """texts for the reader loops: files as the writer produces them, then damaged in the ways a
+    hand-edited or half-written file is: lines dropped / repeated / reordered / foreign, hostile
+    integer fields, stray blanks, other line endings, prefixes repeated inside a line, section
+    markers missing or misplaced, files of another kind"""
+    out = []
+    P = {"graph": ("VERTICES:", "EDGE:", None, None), "divisor": ("GRAPH_VERTICES:", "GRAPH_EDGE:", "---DEGREES---", "DEGREE:"),
+         "orientation": ("GRAPH_VERTICES:", "GRAPH_EDGE:", "---ORIENTATIONS---", "ORIENTED:"),
+         "script": ("GRAPH_VERTICES:", "GRAPH_EDGE:", "---SCRIPT---", "FIRING:")}
+    WS = [" ", "\t", " ", " ", "\x1f", "\x0c"]
+    for _ in range(N):
+        kind = rng.choice(list(P))
+        wkind = kind if rng.random() < 0.9 else rng.choice(list(P))      # sometimes a file of another kind
+        pv, pe, marker, pr = P[wkind]
+        n = rng.choice([0, 1, 2, 3, 3, 4, 5])
+        style = rng.choice(["v", "letters", "unicode", "blanks", "digits", "mixed", "hostile"])
+        if style == "hostile":
+            pool = ["a,b", "x:y", " lead", "trail ", "VERTICES: z", "GRAPH_EDGE", "---DEGREES---", "tab\tin", "-", "0", "-0", "1e3",
+                    "DEGREE: a, 1", "EDGE", "EDGE: a, b, 1", "#", "日本", "a b c", "FIRING", "q\"uote"]
+            names = sorted(rng.sample(pool, n))
+        else:
+            names = gen.gen_names(rng, n, style=style)
+        lines = [f"{pv} {', '.join(names)}"]
+        some = names + ["ghost"]
+        mag = rng.choice([3, 50, 2 ** 53 + 1, 10 ** 30])
+        for _e in range(rng.randint(0, 4) if n >= 1 else 0):
+            a, b = rng.choice(some), rng.choice(some)
+            lines.append(f"{pe} {a}, {b}, {rng.choice([1, 1, 2, 3, 0, -1, mag])}")
+        if marker:
+            lines.append(marker)
+            for nm in (names if rng.random() < 0.7 else rng.sample(some, min(len(some), rng.randint(0, 3)))):
+                if pr == "ORIENTED:":
+                    lines.append(f"{pr} {nm}, {rng.choice(some)}")
+                else:
+                    lines.append(f"{pr} {nm}, {rng.randint(-mag, mag)}")
+        muts = rng.choice([0, 0, 1, 1, 2, 3])
+        for _m in range(muts):
+            r = rng.randrange(12)
+            i = rng.randrange(len(lines)) if lines else 0
+            if r == 0 and lines:
+                del lines[i]
+            elif r == 1 and lines:
+                lines.insert(i, lines[rng.randrange(len(lines))])
+            elif r == 2 and len(lines) >= 2:
+                j = rng.randrange(len(lines))
+                lines[i], lines[j] = lines[j], lines[i]
+            elif r == 3:
+                lines.insert(i, rng.choice(_JUNK))
+            elif r == 4 and lines and "," in lines[i]:
+                head, _, _tail = lines[i].rpartition(",")
+                lines[i] = head + ", " + rng.choice(_HOSTILE_INTS)
+            elif r == 5 and lines:
+                lines[i] = rng.choice(WS) * rng.randint(1, 2) + lines[i] + rng.choice(WS) * rng.randint(0, 2)
+            elif r == 6 and lines:
+                lines[i] = lines[i].replace(", ", rng.choice([",", " ,  ", ",\t", " , "]))
+            elif r == 7 and lines and ":" in lines[i]:
+                pfx = lines[i].split(":")[0] + ":"
+                lines[i] = lines[i].replace(", ", ", " + pfx, 1) if rng.random() < 0.5 else pfx + lines[i]
+            elif r == 8 and lines:
+                lines[i] = lines[i].lower() if rng.random() < 0.5 else lines[i].replace(":", " :", 1)
+            elif r == 9 and marker and marker in lines:
+                lines.remove(marker)
+                if rng.random() < 0.6:
+                    lines.insert(rng.randrange(len(lines) + 1), marker)
+            elif r == 10 and lines and "," in lines[i]:
+                lines[i] = lines[i] + rng.choice([", extra", ",", ", "])
+            elif r == 11 and lines and ", " in lines[i]:
+                lines[i] = lines[i].rsplit(", ", 1)[0]
+        nl = rng.choice(["\n", "\n", "\n", "\r\n", "\r", "mixed"])
+        text = ""
+        for k, l in enumerate(lines):
+            text += l + (rng.choice(["\n", "\r\n", "\r", "\n\n", "\n \n"]) if nl == "mixed" else nl)
+        if text and rng.random() < 0.15:
+            text = text.rstrip("\r\n")
+        if rng.random() < 0.05:
+            text = text[: rng.randrange(len(text) + 1)]
+        if any(("\ud800" <= ch <= "\udfff") for ch in text):
+            continue
+        out.append({"op": "txt_read", "kind": kind, "text": text, "_kind": kind, "_style": style, "_wkind": wkind, "_muts": muts, "_nl": nl, "n": n})
+    return out
